@@ -229,10 +229,18 @@ def run_cell(cfg, cx):
         assum = []
 
         def replay(vals, bvals, g=g):
-            x = cx.conc(X, vals)
+            # the solver's witness, and the same image at other amplitudes (normalisation output is O(1) at every amplitude, but a
+            # defect tied to the stabilising epsilon only shows when the covariance is comparable with it); each is a concrete input
+            x0 = cx.conc(X, vals)
             ps = [jnp.asarray(cx.conc(v, vals)) for v in P]
-            return cx.deviates(np.asarray(f(ps, jnp.asarray(refs.ref_action(D, x, p, g, lead=1)))),
-                               refs.ref_action(D, np.asarray(f(ps, jnp.asarray(x))), p, g, lead=1), rtol=5e-3)
+            res = (False, "")
+            for amp in (1.0, 0.1, 0.01, 0.001, 10.0):
+                x = (x0 * amp).astype(np.float32)
+                res = cx.deviates(np.asarray(f(ps, jnp.asarray(refs.ref_action(D, x, p, g, lead=1)))),
+                                  refs.ref_action(D, np.asarray(f(ps, jnp.asarray(x))), p, g, lead=1), rtol=5e-3)
+                if res[0]:
+                    return True, f"{res[1]} (witness image scaled by {amp})"
+            return res
         cx.equal(f"{blk} equivariant[g={gkey(g)}]", lhs, rhs, assumptions=assum, replay=replay,
                  key=f"eq:{blk}:D={D}:t={kp}:c={c}:groups={groups}:g={gkey(g)}:det={refs.det_signed_perm(g)}")
     if blog:
